@@ -1,8 +1,16 @@
-"""C05 - bounded read-only runtime contracts (see contracts/b_read.py)."""
+"""C05 - parsing is lossless and agrees with Python's parser in every parse mode."""
+from contracts import k_parsex
+from pyvc.contract import verify_all
 from pyvc import native
 
 
 def run(rep, tier, seed):
+    k_parsex.run_structural(rep, 'C05')
+    verify_all(rep, k_parsex.specs('C05'))
+    rep.trusted.append('structural obligations are facts about the program text of parsex.py (decided by analysis of its '
+                       'AST, for all inputs because they do not depend on inputs); CPython is the parser being wrapped')
     sec = native.run('b_read', 'main', {'props': ['C05'], 'tier': tier, 'seed': seed}, timeout=7200)
     sec['native_entry'] = ('b_read', 'replay')
     rep.bounded(sec)
+    rep.remainder = ('acceptance / rejection decisions of each wrapper (_verify_no_close_delimiters, error triage, the '
+                     'fix-ups of undelimited sequences): bounded embedding-oracle check only')
